@@ -114,12 +114,47 @@ pub fn uninstall() -> Option<RunRecord> {
     })
 }
 
+thread_local! {
+    static TURN: RefCell<Option<Option<std::os::unix::net::UnixStream>>> = const { RefCell::new(None) };
+}
+
+/// Turn-taking between several hooked scrut processes that run at the same time (tier S-cli,
+/// "duo" runs): with `SCRUT_VERIF_TURN=<unix socket>` the process announces every point at
+/// which it is about to touch what the processes share (the file system) and then waits until
+/// the harness lets it go on. The harness lets exactly one process run at a time, so WHICH
+/// process proceeds is its (seeded, recorded) decision and the interleaving replays exactly.
+/// Without the variable this is a no-op.
+pub fn turn_point(label: &str) {
+    use std::io::Write;
+    let parked = TURN.with(|t| {
+        let mut t = t.borrow_mut();
+        if t.is_none() {
+            *t = Some(
+                std::env::var("SCRUT_VERIF_TURN")
+                    .ok()
+                    .and_then(|p| std::os::unix::net::UnixStream::connect(p).ok()),
+            );
+        }
+        match t.as_mut().unwrap() {
+            None => false,
+            Some(s) => {
+                let mut go = [0u8; 1];
+                s.write_all(format!("{}\n", label).as_bytes()).is_ok() && s.read_exact(&mut go).is_ok()
+            }
+        }
+    });
+    if parked {
+        with_world(|w| w.log(LogEv::Turn { label: label.to_string() }));
+    }
+}
+
 /// Hook at the places where scrut creates its directories / temporary files: lets the
 /// simulator fail the operation (ENOSPC, EACCES). Pass-through: always Ok.
 pub fn fs_fault(site: &str) -> io::Result<()> {
     if !active() {
         return Ok(());
     }
+    turn_point(site);
     match with_world(|w| w.fs_fault(site)).flatten() {
         Some(errno) => Err(io::Error::from_raw_os_error(errno)),
         None => Ok(()),
@@ -138,12 +173,18 @@ pub struct DrainOnDrop(());
 impl DrainOnDrop {
     pub fn new() -> Self {
         ensure_init();
+        if active() {
+            turn_point("start");
+        }
         DrainOnDrop(())
     }
 }
 
 impl Drop for DrainOnDrop {
     fn drop(&mut self) {
+        if active() {
+            turn_point("end-of-main");
+        }
         with_world(|w| {
             w.drain();
             w.flush_tape();
@@ -532,6 +573,7 @@ fn sim_popen(e: SimExec) -> Result<SimPopen, PopenError> {
     if out_kind(&e.stdout) == "merge" && out_kind(&e.stderr) == "merge" {
         return Err(PopenError::LogicError("cannot merge stdout and stderr into each other"));
     }
+    turn_point("spawn");
     let res = with_world(|w| {
         w.hook_entry();
         let nth = w.popen_attempts;
